@@ -450,7 +450,11 @@ def _read_block_items_maybe(
     if multiple:
         return _read_block_items(docstring, offset=offset, **options)
     one_block, new_offset = _read_block(docstring, offset=offset, **options)
-    return [(new_offset, one_block.splitlines())], new_offset
+    block_lines = one_block.splitlines()
+    if not block_lines:
+        # Empty block (nothing indented under the section title): no items.
+        return [], new_offset
+    return [(new_offset, block_lines)], new_offset
 
 
 def _get_name_annotation_description(
